@@ -52,6 +52,9 @@ type Interp struct {
 	Failed   int
 	FailFast bool
 	fmtDepth int
+	// AllowNonFinite lets arithmetic produce NaN and infinities (IEEE-754) instead
+	// of declining; formatting a non-finite number stays unspecified.
+	AllowNonFinite bool
 	// Calls counts user function calls and loop iterations (for yield-density checks).
 	Calls, Iterations int
 }
@@ -444,6 +447,9 @@ func (in *Interp) bounds(lo, hi Value, n int) (int, int) {
 }
 
 func finite(in *Interp, f float64, what string) float64 {
+	if in.AllowNonFinite && what != "formatting" {
+		return f
+	}
 	if math.IsNaN(f) || math.IsInf(f, 0) {
 		in.unspecified("non-finite result of " + what)
 	}
